@@ -139,6 +139,13 @@ def helpers(np):
         return bool(np.shares_memory(v, base) and off == lo * base.strides[0] and
                     v.strides[0] == base.strides[0])
 
+    def same_fp(a, b):
+        a, b = float(a), float(b)
+        return a == b or (a != a and b != b)
+
+    def same_fp_bool(a, b):
+        return bool(a) == bool(b)
+
     def approx(a, b, tol=1e-9):
         a, b = complex(a), complex(b)
         return abs(a - b) <= tol * (1 + abs(a) + abs(b))
@@ -147,7 +154,7 @@ def helpers(np):
 
     def is_vector(x):
         return hasattr(x, '_data') and hasattr(x, 'asarray')
-    return dict(approx=approx, is_scalar=is_scalar, is_vector=is_vector, is_view=is_view, iff=iff, is_none=is_none, same_object=same_object, is_nan=is_nan, is_inf=is_inf,
+    return dict(same_fp=same_fp, same_fp_bool=same_fp_bool, approx=approx, is_scalar=is_scalar, is_vector=is_vector, is_view=is_view, iff=iff, is_none=is_none, same_object=same_object, is_nan=is_nan, is_inf=is_inf,
                 fp_finite=fp_finite, Sum=Sum, arr_eq=arr_eq, np=np)
 
 
@@ -177,6 +184,29 @@ def load_function(target, override=None):
 
 
 def run_case(c, vals, np, om, override=None, tol=1e-9):
+    """Counter-models of loop functions carry no input history: the contract may expand one
+    model into candidate scenarios (bounded search seeded by the model's values)."""
+    expand = getattr(c, 'native_expand', None)
+    if expand is None or (isinstance(vals, dict) and vals.get('__scenario__')):
+        return run_one(c, vals, np, om, override)
+    last = None
+    n = 0
+    for cand in expand(vals):
+        n += 1
+        r = run_one(c, cand, np, om, override)
+        if r.get('pre_ok') and r.get('failed'):
+            r['scenario'] = cand
+            r['scenarios_tried'] = n
+            return r
+        if last is None or r.get('pre_ok'):
+            last = r
+    if last is None:
+        last = {'pre_ok': None, 'failed': [], 'detail': {'note': 'no scenario'}}
+    last['scenarios_tried'] = n
+    return last
+
+
+def run_one(c, vals, np, om, override=None, tol=1e-9):
     """Returns dict(pre_ok, outcome, failed=[clause...], detail)"""
     out = {'pre_ok': None, 'outcome': None, 'failed': [], 'detail': {}}
     fn, mod = load_function(c.target, override)
@@ -220,6 +250,15 @@ def run_case(c, vals, np, om, override=None, tol=1e-9):
         out['detail']['exception'] = ''.join(traceback.format_exception_only(type(e), e)).strip()
     env['result'] = result
     out['outcome'] = 'raise:' + raised if raised else 'return'
+    for cl in getattr(c, 'native_ensures', ()):
+        # statements that are pre@callee / invariant obligations symbolically, observed natively
+        try:
+            ok = bool(eval(compile_clause(cl, pnames), env))
+        except Exception as e:
+            ok = False
+            out['detail'].setdefault('clause_errors', []).append('%s: %r' % (cl, e))
+        if not ok:
+            out['failed'].append({'kind': 'native-ensures', 'clause': cl})
     if raised is None:
         for cl in c.ensures:
             try:
